@@ -95,13 +95,14 @@ def iset_indexing(ctx, n_cases):
         keys.append(("mask", m))
         thr = rng.choice(tags)
         keys.append(("series", "tag>%d" % thr))
+        keys.append(("series-reordered", "tag>%d" % thr))      # the same boolean Series with its index in another order (sort_values)
         keys.append(("tuple", (slice(a, b), slice(None))))
         keys.append(("tuple-int", (rng.randrange(n), slice(None))))
         for kind, key in keys:
             inp = dict(level="iset-index", st=st, en=en, kind=kind, key=repr(key))
             ctx.case(("ii", tuple(st), tuple(en), kind, repr(key)), inp if k % 53 == 0 and kind == "list" else None)
             ctx.count("iset_index:" + kind)
-            real_key = (A.tag > thr) if kind == "series" else key
+            real_key = (A.tag > thr) if kind == "series" else (A.tag.sort_values(ascending=False) > thr) if kind == "series-reordered" else key
             # positions the key denotes
             if kind in ("int",):
                 pos = [key % n]
@@ -111,7 +112,7 @@ def iset_indexing(ctx, n_cases):
                 pos = [int(x) % n for x in key]
             elif kind == "mask":
                 pos = [int(i) for i in np.nonzero(key)[0]]
-            elif kind == "series":
+            elif kind in ("series", "series-reordered"):
                 pos = [i for i, t in enumerate(tags) if t > thr]
             elif kind == "tuple":
                 pos = list(range(*key[0].indices(n)))
